@@ -2,6 +2,7 @@
     Property theorems only; each is closed by [exact] of a lemma proved in Proofs/. *)
 Require Import Sedpack.Model.Base Sedpack.Generated.GenFiller Sedpack.Model.Filler.
 Require Import Sedpack.Proofs.FillerProofs Sedpack.Proofs.FillerExact.
+Require Import Sedpack.Generated.GenIter Sedpack.Model.Iter Sedpack.Model.PipeBase Sedpack.Generated.GenPipeline Sedpack.Proofs.PipelineProofs.
 
 (** Within one filler context the shards recorded for a split, concatenated in the order in
     which they were closed (which is the order of the list file and hence of unshuffled
@@ -12,6 +13,17 @@ Theorem c03_session_order_preserved :
     recorded eps ops s = accepted s ops 0.
 Proof. exact filler_exact_lemma. Qed.
 Print Assumptions c03_session_order_preserved.
+
+(** Unshuffled iteration (shuffle=0, repeat=False) through the three NumPy interfaces, as compositions regenerated from
+    dataset_iteration.py: the result is *equal* to the examples of the selected shards in list order, whatever the thread
+    count, the random sequences and the pool's completion order (they are not consulted). *)
+Theorem c03_unshuffled_interfaces_in_order :
+  forall (path ex : Type) (read : path -> list ex) (process : ex -> ex) pickA permA pickB permB pool_perm hp paths,
+  ani path ex read process pickA permA pickB permB 0 hp paths = spec path ex read process hp paths
+  /\ (forall T, 1 <= T -> anc path ex read process pickA permA pickB pool_perm 0 T hp paths = spec path ex read process hp paths)
+  /\ (forall T, ana path ex read process pickA permA pickB 0 T hp paths = spec path ex read process hp paths).
+Proof. exact unshuffled_in_order. Qed.
+Print Assumptions c03_unshuffled_interfaces_in_order.
 
 (** Non-vacuity: three splits interleaved, shard size 2. *)
 Theorem c03_nonvacuous :
